@@ -72,7 +72,7 @@ type Interp struct {
 type Stats struct {
 	Paths, Branches, SolverQueries, Unsat, Sat, Unknown int64
 	AssertQueries, DigitBoundPruned, AtomLinks          int64
-	TableAbstractions                                   int64
+	TableAbstractions, TableRefinements                 int64
 	SolverNs                                          int64
 	Steps                                             int64
 	Funcs                                             map[string]bool
